@@ -25,6 +25,12 @@ term = conv(tokens)
 n = int(num)
 if n == 9:
     mod, imp, dec = 'SST', 'C09', 'C09.decode'
+elif n == 19:
+    mod, imp, dec = 'DB', 'C19', 'C19.decode'
+elif n == 7:
+    mod, imp, dec = 'DB', 'C07', 'C07.decode'
+elif n in (1, 6, 17):
+    mod, imp, dec = 'DB', 'DBC', 'DBC.decode'
 elif n in (3, 8, 11, 15):
     mod, imp, dec = 'SST', 'SSTC', 'SSTC.decode_c%02d' % n
 else:
